@@ -645,6 +645,10 @@ func TestVerifC14Cancel(t *testing.T) {
 			c.State(router, withDisc, how)
 			c.Order(how, W)
 			c.Nontrivial(calls > 30)
+			if c.Idx < 3 {
+				c.Sample(map[string]any{"router": router, "discovery": withDisc, "scoring": w.scoring, "workers": W, "cancelled": how, "burst": mode == "at_time" && burst,
+					"api_calls": calls, "operations_used": ops})
+			}
 			c.Count("api_calls", calls)
 			c.Count("cancel_"+mode, 1)
 			c.Count("post_cancel_calls", int(post.calls.Load()))
@@ -776,6 +780,9 @@ func TestVerifC14Ctor(t *testing.T) {
 				c.Violatef(map[string]string{"check": "ctor_goroutine_leak", "where": fn, "router": router, "failed": fmt.Sprint(failed)},
 					"%d goroutine(s) survive the context and the host after New%s(%s) returned err=%v:\n%s", len(gs), router, what, err, strings.Join(gs[:min(3, len(gs))], "\n\n"))
 				return
+			}
+			if c.Idx < 3 {
+				c.Sample(map[string]any{"router": router, "constructor": what, "failed": failed, "goroutines_left": 0})
 			}
 			c.Sig(router, what, failed)
 			c.State(router, what, failed)
